@@ -5,12 +5,13 @@
 M=$(readlink -f "$1"); TAG=$$
 WT=/tmp/vm_$TAG; TD=/tmp/vm_${TAG}_target
 git -C /repo worktree add --detach -q $WT HEAD
+[ -d /repo/target ] && cp -r --reflink=auto /repo/target $TD   # warm dependency artefacts
 cleanup() { git -C /repo worktree remove --force $WT 2>/dev/null; rm -rf $TD /tmp/vm_${TAG}_demo; }
 trap cleanup EXIT
 run_demo() {  # run the demo against tree $WT
   rm -rf /tmp/vm_${TAG}_demo; cp -r "$M/demo" /tmp/vm_${TAG}_demo; cd /tmp/vm_${TAG}_demo
   # demos refer to the agent's worktree path: rewrite it to ours
-  ORIG=$(grep -rhoE "/tmp/mut_C[0-9]+" . 2>/dev/null | head -1)
+  ORIG=$(grep -rhoE "/tmp/mut_C[0-9]+[a-z]?" . 2>/dev/null | grep -v _target | sort | head -1)
   [ -n "$ORIG" ] && grep -rlE "$ORIG" . | xargs sed -i "s#$ORIG#$WT#g"
   if [ -f Cargo.toml ]; then cp $WT/Cargo.lock . 2>/dev/null; CARGO_NET_OFFLINE=true timeout 1500 cargo run --offline --quiet --target-dir $TD/demo >/tmp/vm_${TAG}_demo.log 2>&1; echo $?
   else SH=$(ls *.sh | head -1); PNA_TARGET_DIR=$TD CARGO_TARGET_DIR=$TD timeout 1500 sh ./$SH >/tmp/vm_${TAG}_demo.log 2>&1; echo $?; fi
